@@ -3,6 +3,10 @@
 (* As-built model of how pilota-build turns resolved items into text       *)
 (* (codegen/mod.rs write_items, parser/protobuf/mod.rs lower_message):     *)
 (*                                                                         *)
+(*  0. files: the input files are lowered one after the other; definition *)
+(*     ids are handed out in that order and fix the order of the items of  *)
+(*     a module.  FileOrder selects the as-built behaviour ("input": the   *)
+(*     order given) or a hash-map iteration ("hash").                      *)
 (*  1. lowering: the nested messages of a protobuf message are lowered by  *)
 (*     iterating a hash map keyed by their qualified name -- the iteration *)
 (*     order is a function of the per-process hash seed.  NestedOrder      *)
@@ -21,18 +25,23 @@
 EXTENDS Integers, Sequences, FiniteSets, TLC
 
 CONSTANTS Mods,         \* set of module names (model values or strings)
-          ItemsOf,      \* [Mods -> Seq(items)] items of a module in input (declaration) order
+          Files,        \* Seq of [mod, items]: the input files in the order given (imports included), each contributing
+                        \* its items, in declaration order, to one module; two files may share a module (same package)
+          FileOrder,    \* "input": files are lowered in the order given (as built) | "hash": in the iteration order of
+                        \* a per-process-seeded hash map (a seeded change, /verif/seeded/c17a)
           Nested,       \* [item -> Seq(nested items)] sibling nested messages in declaration order
           W,            \* number of workers
           NestedOrder   \* "hash" (as built before the fix) | "decl"
 
 VARIABLES groupOrder,   \* the iteration order of the group map (a permutation of Mods as a sequence)
+          fileOrder,    \* the order in which the files are lowered (definition ids are handed out in this order,
+                        \* and the items of a module are written in definition-id order)
           lowered,      \* [Mods -> Seq(items)] after lowering (nested items inserted)
           next,         \* index of the next group to hand out
           busy,         \* [1..W -> module being written or 0 (idle)]
           pkgs,         \* [Mods -> Seq(items)] text of a module (as the sequence of items written)
           out           \* final output: Seq of <<module, text>>, or <<>> while running
-vars == <<groupOrder, lowered, next, busy, pkgs, out>>
+vars == <<groupOrder, fileOrder, lowered, next, busy, pkgs, out>>
 
 Perms(S) == {f \in [1..Cardinality(S) -> S] : \A i, j \in 1..Cardinality(S) : i # j => f[i] # f[j]}
 PermsOfSeq(s) == {[i \in 1..Len(s) |-> s[p[i]]] : p \in Perms(1..Len(s))}
@@ -42,27 +51,35 @@ RECURSIVE Flatten(_, _)
 Flatten(items, ord) == IF items = <<>> THEN <<>>
                        ELSE <<Head(items)>> \o ord[Head(items)] \o Flatten(Tail(items), ord)
 
+\* items of module m when the files are lowered in order ford
+RECURSIVE ItemsFrom(_, _, _)
+ItemsFrom(ford, m, i) == IF i > Len(Files) THEN <<>>
+                         ELSE (IF Files[ford[i]].mod = m THEN Files[ford[i]].items ELSE <<>>) \o ItemsFrom(ford, m, i + 1)
+IdOrder == [i \in 1..Len(Files) |-> i]
+ItemsOf == [m \in Mods |-> ItemsFrom(IdOrder, m, 1)]
+FileOrders == IF FileOrder = "input" THEN {IdOrder} ELSE Perms(1..Len(Files))
 AllItems == UNION {{ItemsOf[m][i] : i \in 1..Len(ItemsOf[m])} : m \in Mods}
 NestedChoices == IF NestedOrder = "decl" THEN {Nested}
                  ELSE {f \in [AllItems -> UNION {PermsOfSeq(Nested[x]) : x \in AllItems}] : \A x \in AllItems : f[x] \in PermsOfSeq(Nested[x])}
 
 Init == /\ groupOrder \in Perms(Mods)
-        /\ \E ord \in NestedChoices : lowered = [m \in Mods |-> Flatten(ItemsOf[m], ord)]
+        /\ fileOrder \in FileOrders
+        /\ \E ord \in NestedChoices : lowered = [m \in Mods |-> Flatten(ItemsFrom(fileOrder, m, 1), ord)]
         /\ next = 1 /\ busy = [w \in 1..W |-> 0] /\ pkgs = [m \in Mods |-> <<>>] /\ out = <<>>
 
 Take(w) == /\ busy[w] = 0 /\ next <= Cardinality(Mods)
            /\ busy' = [busy EXCEPT ![w] = groupOrder[next]] /\ next' = next + 1
-           /\ UNCHANGED <<groupOrder, lowered, pkgs, out>>
+           /\ UNCHANGED <<groupOrder, fileOrder, lowered, pkgs, out>>
 Write(w) == /\ busy[w] # 0
             /\ pkgs' = [pkgs EXCEPT ![busy[w]] = @ \o lowered[busy[w]]]
             /\ busy' = [busy EXCEPT ![w] = 0]
-            /\ UNCHANGED <<groupOrder, lowered, next, out>>
+            /\ UNCHANGED <<groupOrder, fileOrder, lowered, next, out>>
 \* sorted emission: Mods must be comparable (use strings or integers)
 RECURSIVE SortedSeq(_)
 SortedSeq(S) == IF S = {} THEN <<>> ELSE LET m == CHOOSE x \in S : \A y \in S : x <= y IN <<m>> \o SortedSeq(S \ {m})
 Emit == /\ out = <<>> /\ next > Cardinality(Mods) /\ \A w \in 1..W : busy[w] = 0
         /\ out' = [i \in 1..Cardinality(Mods) |-> <<SortedSeq(Mods)[i], pkgs[SortedSeq(Mods)[i]]>>]
-        /\ UNCHANGED <<groupOrder, lowered, next, busy, pkgs>>
+        /\ UNCHANGED <<groupOrder, fileOrder, lowered, next, busy, pkgs>>
 Next == Emit \/ \E w \in 1..W : Take(w) \/ Write(w)
 Spec == Init /\ [][Next]_vars /\ WF_vars(Next)
 
